@@ -19,26 +19,55 @@ use crate::Opts;
 struct Ctx {
     transport: UdpTransport,
     addr: std::net::SocketAddr,
+    /// the socket of entity 1, which the transport's entity map knows
     sender: UdpSocket,
+    /// a socket the entity map does not list
+    stranger: UdpSocket,
+}
+
+/// receive() calls that got nothing within the time allowed; after a few of them the engine stops (every further
+/// datagram would wait as long) - each is reported as a violation of C16
+static TIMEOUTS: std::sync::atomic::AtomicU64 = std::sync::atomic::AtomicU64::new(0);
+const MAX_TIMEOUTS: u64 = 3;
+fn gave_up() -> bool {
+    TIMEOUTS.load(std::sync::atomic::Ordering::Relaxed) >= MAX_TIMEOUTS
 }
 
 async fn new_ctx() -> Ctx {
     let sock = UdpSocket::bind("127.0.0.1:0").await.expect("bind");
     let addr = sock.local_addr().unwrap();
-    let transport = UdpTransport::try_from((sock, HashMap::new())).expect("transport");
     let sender = UdpSocket::bind("127.0.0.1:0").await.expect("bind sender");
-    Ctx { transport, addr, sender }
+    let stranger = UdpSocket::bind("127.0.0.1:0").await.expect("bind stranger");
+    let mut map = HashMap::new();
+    map.insert(cfdp_core::pdu::VariableID::from(1u16), sender.local_addr().unwrap());
+    let transport = UdpTransport::try_from((sock, map)).expect("transport");
+    Ctx { transport, addr, sender, stranger }
 }
 
 async fn recv_one(out: &mut dyn Write, ctx: &mut Ctx, dg: &[u8], history: &mut Vec<String>, viol: &mut u64) {
+    recv_from(out, ctx, dg, false, history, viol).await
+}
+
+/// one datagram, from the known peer or from the socket the entity map does not list, then one receive()
+async fn recv_from(out: &mut dyn Write, ctx: &mut Ctx, dg: &[u8], stranger: bool, history: &mut Vec<String>, viol: &mut u64) {
+    if gave_up() {
+        return;
+    }
     let op = format!("udp recv {}", hex(dg));
-    history.push(op.clone());
-    ctx.sender.send_to(dg, ctx.addr).await.expect("send");
-    let r = tokio::time::timeout(Duration::from_secs(5), ctx.transport.receive()).await;
+    history.push(if stranger { format!("{} (from an address the entity map does not list)", op) } else { op.clone() });
+    if stranger {
+        ctx.stranger.send_to(dg, ctx.addr).await.expect("send");
+    } else {
+        ctx.sender.send_to(dg, ctx.addr).await.expect("send");
+    }
+    let r = tokio::time::timeout(Duration::from_secs(2), ctx.transport.receive()).await;
     let got = match r {
         Ok(Ok(p)) => format!("ok {}", pdu_repr(&p)),
         Ok(Err(_)) => "err".to_string(),
-        Err(_) => "timeout".to_string(),
+        Err(_) => {
+            TIMEOUTS.fetch_add(1, std::sync::atomic::Ordering::Relaxed);
+            "timeout".to_string()
+        }
     };
     rec(out, &op, &got);
     let alone = match PDU::decode(&mut &dg[..]) {
@@ -58,22 +87,42 @@ async fn recv_one(out: &mut dyn Write, ctx: &mut Ctx, dg: &[u8], history: &mut V
 
 /// several datagrams are queued at the socket before `receive()` is called once for each
 async fn recv_burst(out: &mut dyn Write, ctx: &mut Ctx, dgs: &[Vec<u8>], history: &mut Vec<String>, viol: &mut u64) {
+    recv_burst_from(out, ctx, dgs, &[], history, viol).await
+}
+
+/// `strangers[i]` = datagram i comes from the socket the entity map does not list
+async fn recv_burst_from(out: &mut dyn Write, ctx: &mut Ctx, dgs: &[Vec<u8>], strangers: &[bool], history: &mut Vec<String>, viol: &mut u64) {
+    if gave_up() {
+        return;
+    }
     let op = format!("udp burst {}", dgs.len());
     history.push(op.clone());
     rec(out, &op, "ok");
-    for dg in dgs {
-        ctx.sender.send_to(dg, ctx.addr).await.expect("send");
+    for (i, dg) in dgs.iter().enumerate() {
+        if strangers.get(i).copied().unwrap_or(false) {
+            ctx.stranger.send_to(dg, ctx.addr).await.expect("send");
+            // keep the order of arrival across the two sending sockets
+            tokio::time::sleep(Duration::from_millis(2)).await;
+        } else {
+            ctx.sender.send_to(dg, ctx.addr).await.expect("send");
+        }
     }
     // let the datagrams reach the socket's queue
     tokio::time::sleep(Duration::from_millis(5)).await;
     for dg in dgs {
+        if gave_up() {
+            return;
+        }
         let op = format!("udp recv {}", hex(dg));
         history.push(op.clone());
-        let r = tokio::time::timeout(Duration::from_secs(5), ctx.transport.receive()).await;
+        let r = tokio::time::timeout(Duration::from_secs(2), ctx.transport.receive()).await;
         let got = match r {
             Ok(Ok(p)) => format!("ok {}", pdu_repr(&p)),
             Ok(Err(_)) => "err".to_string(),
-            Err(_) => "timeout".to_string(),
+            Err(_) => {
+                TIMEOUTS.fetch_add(1, std::sync::atomic::Ordering::Relaxed);
+                "timeout".to_string()
+            }
         };
         rec(out, &op, &got);
         let alone = match PDU::decode(&mut &dg[..]) {
@@ -134,6 +183,9 @@ pub fn run(opts: &Opts, out: &mut dyn Write) {
         let corp: Vec<Vec<u8>> = corpus(&mut rng).into_iter().map(|p| p.encode()).filter(|e| e.len() < 300).collect();
         // every truncation of D after D itself
         for d in &corp {
+            if gave_up() {
+                break;
+            }
             let mut ctx = new_ctx().await;
             rec(out, "udp new", "ok");
             let mut hist = vec!["udp new".to_string()];
@@ -150,6 +202,9 @@ pub fn run(opts: &Opts, out: &mut dyn Write) {
         // truncations of a shorter datagram after a longer, different one
         let pairs = if opts.thorough { 600 } else { 60 };
         for _ in 0..pairs {
+            if gave_up() {
+                break;
+            }
             let a = rng.pick(&corp).clone();
             let b = rng.pick(&corp).clone();
             let (long, short) = if a.len() >= b.len() { (a, b) } else { (b, a) };
@@ -164,10 +219,40 @@ pub fn run(opts: &Opts, out: &mut dyn Write) {
             recv_one(out, &mut ctx, &short, &mut hist, &mut viol).await;
             cases += 1;
         }
+        // a datagram from an address the entity map does not list, then truncations of a shorter datagram from the peer:
+        // whatever the transport does with the stranger's datagram, the peer's is decoded from its own bytes
+        let strangers = if opts.thorough { 300 } else { 30 };
+        for _ in 0..strangers {
+            if gave_up() {
+                break;
+            }
+            let a = rng.pick(&corp).clone();
+            let b = rng.pick(&corp).clone();
+            let (long, short) = if a.len() >= b.len() { (a, b) } else { (b, a) };
+            let mut ctx = new_ctx().await;
+            rec(out, "udp new", "ok");
+            let mut hist = vec!["udp new".to_string()];
+            recv_from(out, &mut ctx, &long, true, &mut hist, &mut viol).await;
+            for _ in 0..3 {
+                let k = rng.below(short.len() as u64 + 1) as usize;
+                recv_from(out, &mut ctx, &short[..k], false, &mut hist, &mut viol).await;
+                if rng.chance(1, 2) {
+                    recv_from(out, &mut ctx, &long, true, &mut hist, &mut viol).await;
+                }
+            }
+            recv_from(out, &mut ctx, &short, false, &mut hist, &mut viol).await;
+            // ... and both queued at the socket before receive() is called: the stranger's long datagram first
+            let k = rng.below(short.len() as u64 + 1) as usize;
+            recv_burst_from(out, &mut ctx, &[long.clone(), short[..k].to_vec(), short.clone()], &[true, false, false], &mut hist, &mut viol).await;
+            cases += 1;
+        }
         // bursts: a valid datagram, an undecodable one (its data-field length forced to 0xFFFF, or cut short, or a flipped
         // octet) and truncations of shorter datagrams are all queued at the socket before receive() is called
         let bursts = if opts.thorough { 400 } else { 40 };
         for _ in 0..bursts {
+            if gave_up() {
+                break;
+            }
             let v = rng.pick(&corp).clone();
             let w = rng.pick(&corp).clone();
             let mut bad = v.clone();
@@ -201,5 +286,9 @@ pub fn run(opts: &Opts, out: &mut dyn Write) {
             cases += 1;
         }
     });
-    stat(out, &format!("engine=udp cases={} oracle_violations={}", cases, viol));
+    if gave_up() {
+        viol += 1;
+        oracle(out, "C16", "delivered", &format!("receive() returned nothing within 2 s for {} datagrams that had been sent to the socket; the engine stopped there", MAX_TIMEOUTS));
+    }
+    stat(out, &format!("engine=udp cases={} timeouts={} oracle_violations={}", cases, TIMEOUTS.load(std::sync::atomic::Ordering::Relaxed), viol));
 }
